@@ -27,8 +27,13 @@ func specDefaultKnown(t parser.ValueType) bool {
 	return false
 }
 
+// Every translation step runs with the converter that Transpile installed.
+//@ invariant (*transpiler) t [C13] has-converter: t.converter != nil
+//
 //@ func (*transpiler).Transpile
 //@   flag modular: true
+//@   flag noinvariant: true
+//@   requires[C13] converter-given: converter != nil
 //@   ensures[C14] fresh-parser-per-run: calls(New) == 1 && calls(Parse) == 1 && seq(New, 0) < seq(Parse, 0)
 //@   ensures[C13] script-or-error-never-both: err != nil && calls(Dump) == 0 ==> result0 == ""
 //@   ensures[C14] only-the-converter-is-kept: sameExcept(t, old(t), "converter")
